@@ -169,6 +169,15 @@ def Closed (s : Store) : Node → Prop
       | _ => Stored hs s false c) ∧ Closed s c
   | .full ch => ∀ i, (i ≠ 16 → Stored hs s false (ch i)) ∧ Closed s (ch i)
 
+def ChildStored (s : Store) (c : Node) : Prop :=
+  match c with
+  | .value _ => True
+  | _ => Stored hs s false c
+
+theorem closed_short (s : Store) (K : List Nib) (c : Node) :
+    Closed hs s (.short K c) = (ChildStored hs s c ∧ Closed hs s c) := by
+  cases c <;> rfl
+
 def Store.le (s s' : Store) : Prop := ∀ h c, s h = some c → s' h = some c
 
 theorem Store.le_refl (s : Store) : Store.le s s := fun _ _ h => h
@@ -895,6 +904,21 @@ theorem writes_full_none {ch : Nib → PNode} {f : Flag} (force : Bool)
         ++ storeWrite hx (kids hx (.full ch f)) f.hash force := by
   simp only [writes, hcd]
 
+def pBad (c : PNode) : Bool :=
+  match c with
+  | .empty => true
+  | .value _ => false
+  | _ => hashBad hx c
+
+theorem hashBad_short_none {K : List Nib} {c : PNode} {f : Flag} (hcd : cacheDecision hx f = none) :
+    hashBad hx (.short K c f) = pBad hx c := by
+  simp only [hashBad, hcd]
+  cases c <;> rfl
+
+theorem hashBad_full_none {ch : Nib → PNode} {f : Flag} (hcd : cacheDecision hx f = none) :
+    hashBad hx (.full ch f) = (List.finRange 17).any (fun i => i ≠ 16 && hashBad hx (ch i)) := by
+  simp only [hashBad, hcd]
+
 theorem storeRef_cached (hs : Hasher) (X : CNode) (hb : X.isBranch = true) (o : Option Hash) (force : Bool)
     (H : ∀ h, o = some h → storeRef hs X none force = .hash h) :
     storeRef hs X o force = storeRef hs X none force := by
@@ -1098,6 +1122,395 @@ theorem writes_sound {s : Store} {top : Bool} {p : PNode} {n : Node} (hI : Inv h
           simp only [Option.getD_some]
           exact (refC_hash_inv (hs := hs) (n := .full ch') rfl (hF.1 h0 hh).1).2
 
+omit heq1 heq2 in
+theorem refC_force_hash (n : Node) (hb : Node.isBranch n = true) : ∃ h, refC hs n true = .hash h := by
+  rw [refC_branch hs n hb, storeRef_branch hs _ (refKids_isBranch hs n hb)]
+  refine ⟨hs.hashOf (refKids hs n), ?_⟩
+  simp
+
+omit heq1 heq2 in
+/-- flags of a node the hasher has processed -/
+theorem flagOk_processed {s s' : Store} {top : Bool} {f : Flag} {n : Node} (hb : Node.isBranch n = true)
+    (hF : FlagOk hs s top f n) (hcd : cacheDecision hx f = none)
+    (hcl : hx.commit = true → Stored hs s' top n ∧ Closed hs s' n) :
+    FlagOk hs s' top ⟨refHash? (refC hs n top), f.gen, (if hx.commit then false else f.dirty)⟩ n := by
+  refine ⟨fun h hh => ?_, fun hd hh => ?_⟩
+  · have hR : refC hs n top = .hash h := by
+      cases hr : refC hs n top <;> rw [hr] at hh <;> simp [refHash?] at hh
+      rw [hh]
+    refine ⟨hR, fun hd => ?_⟩
+    by_cases hc : hx.commit = true
+    · exact ⟨(hcl hc).1 h hR, (hcl hc).2⟩
+    · exfalso
+      have hc' : hx.commit = false := by simpa using hc
+      simp only [hc', Bool.false_eq_true, if_false] at hd
+      have := hF.2 hd ((cd_none hx hcd).1 hc')
+      rw [this.1] at hR
+      exact this.2 h hR
+  · have hnot : ∀ h, refC hs n top ≠ .hash h := by
+      intro h hr; rw [hr] at hh; simp [refHash?] at hh
+    have htop : top = false := by
+      cases top with
+      | false => rfl
+      | true => obtain ⟨h, hr⟩ := refC_force_hash hs n hb; exact absurd hr (hnot h)
+    subst htop
+    exact ⟨rfl, hnot⟩
+
+/-- **`Commit` / `Hash` / unloading keep the invariant**: for every store `s'` that extends `s` and
+    contains the hasher's writes, the trie returned by the hasher (hashes cached, dirty flags cleared,
+    unloadable nodes replaced by hash nodes) abstracts to the same resolved trie, the hasher does not
+    panic, and (commit mode) the store is closed for it. -/
+theorem commit_core {s : Store} {top : Bool} {p : PNode} {n : Node} (hI : Inv hs s top p n) :
+    Placed n → (∀ v, n ≠ .value v) → ∀ s', Store.le s s' →
+    (hx.commit = true → ∀ w, w ∈ writes hx p top → s' w.1 = some w.2) →
+    hashBad hx p = false ∧ Inv hs s' top (cachedOf hx p top) n ∧
+    (hx.commit = true → Stored hs s' top n ∧ Closed hs s' n) := by
+  induction hI with
+  | empty top =>
+    intro _ _ s' _ _
+    exact ⟨rfl, .empty top, fun _ => ⟨fun h hh => by simp [refC] at hh, trivial⟩⟩
+  | value top v => intro _ hv; exact absurd rfl (hv v)
+  | hash top h n hb hr hst hcl =>
+    intro _ _ s' hle _
+    refine ⟨rfl, .hash top h n hb hr (hle _ _ hst) (closed_mono hs hle n hcl),
+      fun _ => ⟨fun h' hh => ?_, closed_mono hs hle n hcl⟩⟩
+    rw [hr] at hh
+    simp only [CNode.hash.injEq] at hh
+    rw [← hh]; exact hle _ _ hst
+  | short top K c n f hIc hF ih =>
+    intro hP _ s' hle hw
+    cases hcd : cacheDecision hx f with
+    | some hu =>
+      obtain ⟨h, u⟩ := hu
+      obtain ⟨hfh, hu1, hclean⟩ := cd_some hx hcd
+      have htie := (hF.1 h hfh).1
+      have hst : hx.commit = true → Stored hs s' top (.short K n) ∧ Closed hs s' (.short K n) := by
+        intro hc
+        obtain ⟨h1, h2⟩ := (hF.1 h hfh).2 (hclean hc)
+        refine ⟨fun h' hh => ?_, closed_mono hs hle _ h2⟩
+        rw [htie] at hh
+        simp only [CNode.hash.injEq] at hh
+        rw [← hh]; exact hle _ _ h1
+      refine ⟨by simp [hashBad, hcd], ?_, hst⟩
+      cases u with
+      | true =>
+        have hc := hu1 rfl
+        obtain ⟨h1, h2⟩ := (hF.1 h hfh).2 (hclean hc)
+        simp only [cachedOf, hcd]
+        exact .hash top h _ rfl htie (hle _ _ h1) (closed_mono hs hle _ h2)
+      | false =>
+        simp only [cachedOf, hcd]
+        exact inv_mono hs hle (.short top K c n f hIc hF)
+    | none =>
+      have hk := kids_short_eq hs hx heq1 heq2 K f hIc hP.2
+      have hH := hashed_eq_ref hs hx heq1 heq2 (.short top K c n f hIc hF) hP
+      rw [writes_short_none hx top hcd] at hw
+      have hch : pBad hx c = false ∧ Inv hs s' false (pCached hx c) n ∧
+          (hx.commit = true → ChildStored hs s' n ∧ Closed hs s' n) := by
+        have hsub : hx.commit = true → ∀ w, w ∈ pWrites hx c → s' w.1 = some w.2 :=
+          fun hc w hm => hw hc w (List.mem_append_left _ hm)
+        cases hIc with
+        | empty => exact absurd rfl hP.1
+        | value _ v => exact ⟨rfl, .value false v, fun _ => ⟨trivial, trivial⟩⟩
+        | hash _ h' _ hb' hr' hst' hcl' =>
+          obtain ⟨g1, g2, g3⟩ := ih hP.2 (by intro v hv; rw [hv] at hb'; simp [Node.isBranch] at hb') s' hle hsub
+          refine ⟨g1, g2, fun hc => ?_⟩
+          cases n <;> simp [Node.isBranch] at hb' <;> exact g3 hc
+        | short _ K' c' n' f' h1 h2 =>
+          obtain ⟨g1, g2, g3⟩ := ih hP.2 (by intro v hv; cases hv) s' hle hsub
+          exact ⟨g1, g2, g3⟩
+        | full _ ch0 ch0' f' h1 h2 =>
+          obtain ⟨g1, g2, g3⟩ := ih hP.2 (by intro v hv; cases hv) s' hle hsub
+          exact ⟨g1, g2, g3⟩
+      obtain ⟨hb1, hb2, hb3⟩ := hch
+      have hcl : hx.commit = true → Stored hs s' top (.short K n) ∧ Closed hs s' (.short K n) := by
+        intro hc
+        refine ⟨fun h hh => ?_, by rw [closed_short]; exact hb3 hc⟩
+        have hR : storeRef hx (kids hx (.short K c f)) f.hash top = .hash h := by
+          rw [← hashed_short_none hx top hcd, hH, hh]
+        have := storeWrite_of_hash hx _ (by rw [kids_short]; rfl) _ _ hc hR
+        have hm : (h, kids hx (.short K c f)) ∈ pWrites hx c ++ storeWrite hx (kids hx (.short K c f)) f.hash top := by
+          rw [this]; simp
+        have := hw hc _ hm
+        rw [hk] at this
+        exact this
+      refine ⟨by rw [hashBad_short_none hx hcd]; exact hb1, ?_, hcl⟩
+      rw [cachedOf_short_none hx top hcd, hH]
+      exact .short top K _ n _ hb2 (flagOk_processed hs hx rfl hF hcd hcl)
+  | full top ch ch' f hIc hF ih =>
+    intro hP _ s' hle hw
+    cases hcd : cacheDecision hx f with
+    | some hu =>
+      obtain ⟨h, u⟩ := hu
+      obtain ⟨hfh, hu1, hclean⟩ := cd_some hx hcd
+      have htie := (hF.1 h hfh).1
+      have hst : hx.commit = true → Stored hs s' top (.full ch') ∧ Closed hs s' (.full ch') := by
+        intro hc
+        obtain ⟨h1, h2⟩ := (hF.1 h hfh).2 (hclean hc)
+        refine ⟨fun h' hh => ?_, closed_mono hs hle _ h2⟩
+        rw [htie] at hh
+        simp only [CNode.hash.injEq] at hh
+        rw [← hh]; exact hle _ _ h1
+      refine ⟨by simp [hashBad, hcd], ?_, hst⟩
+      cases u with
+      | true =>
+        have hc := hu1 rfl
+        obtain ⟨h1, h2⟩ := (hF.1 h hfh).2 (hclean hc)
+        simp only [cachedOf, hcd]
+        exact .hash top h _ rfl htie (hle _ _ h1) (closed_mono hs hle _ h2)
+      | false =>
+        simp only [cachedOf, hcd]
+        exact inv_mono hs hle (.full top ch ch' f hIc hF)
+    | none =>
+      have hk := kids_full_eq hs hx heq1 heq2 f hIc hP
+      have hH := hashed_eq_ref hs hx heq1 heq2 (.full top ch ch' f hIc hF) hP
+      rw [writes_full_none hx top hcd] at hw
+      have hch : ∀ i, i ≠ 16 → hashBad hx (ch i) = false ∧ Inv hs s' false (cachedOf hx (ch i) false) (ch' i) ∧
+          (hx.commit = true → Stored hs s' false (ch' i) ∧ Closed hs s' (ch' i)) := by
+        intro i hi
+        refine ih i (hP.2.2 i) (hP.1 i hi) s' hle (fun hc w hm => hw hc w (List.mem_append_left _ ?_))
+        rw [List.mem_flatMap]
+        exact ⟨i, List.mem_finRange i, by simp only [hi, if_false]; exact hm⟩
+      have hcl : hx.commit = true → Stored hs s' top (.full ch') ∧ Closed hs s' (.full ch') := by
+        intro hc
+        refine ⟨fun h hh => ?_, fun i => ?_⟩
+        · have hR : storeRef hx (kids hx (.full ch f)) f.hash top = .hash h := by
+            rw [← hashed_full_none hx top hcd, hH, hh]
+          have := storeWrite_of_hash hx _ (by rw [kids_full]; rfl) _ _ hc hR
+          have hm : (h, kids hx (.full ch f)) ∈
+              (List.finRange 17).flatMap (fun i => if i = 16 then [] else writes hx (ch i) false)
+                ++ storeWrite hx (kids hx (.full ch f)) f.hash top := by
+            rw [this]; simp
+          have := hw hc _ hm
+          rw [hk] at this
+          exact this
+        · by_cases hi : i = 16
+          · subst hi
+            refine ⟨fun h => absurd rfl h, ?_⟩
+            rcases hP.2.1 with h | ⟨v, h⟩ <;> rw [h] <;> trivial
+          · exact ⟨fun _ => ((hch i hi).2.2 hc).1, ((hch i hi).2.2 hc).2⟩
+      refine ⟨?_, ?_, hcl⟩
+      · rw [hashBad_full_none hx hcd, List.any_eq_false]
+        intro i _
+        by_cases hi : i = 16
+        · simp [hi]
+        · simp [hi, (hch i hi).1]
+      · rw [cachedOf_full_none hx top hcd, hH]
+        refine .full top _ ch' _ (fun i => ?_) (flagOk_processed hs hx rfl hF hcd hcl)
+        by_cases hi : i = 16
+        · simp only [hi, if_true]; exact inv_mono hs hle (hIc 16)
+        · simp only [hi, if_false]; exact (hch i hi).2.1
+
+
 end hasher
+
+/-! ### the content-addressed store -/
+
+/-- every entry is keyed by the hash of its blob -/
+def Sound (hashOf : CNode → Hash) (s : Store) : Prop := ∀ h c, s h = some c → h = hashOf c
+
+theorem put_le (s : Store) (h : Hash) (c : CNode) : Store.le s (s.put h c) := by
+  intro x c0 hx
+  unfold Store.put
+  by_cases hxh : x = h
+  · subst hxh; simp [hx]
+  · simp [hxh, hx]
+
+theorem put_sound {hashOf : CNode → Hash} {s : Store} (hS : Sound hashOf s) {h : Hash} {c : CNode}
+    (hh : h = hashOf c) : Sound hashOf (s.put h c) := by
+  intro x c0 hx
+  unfold Store.put at hx
+  by_cases hxh : x = h
+  · subst hxh
+    simp only [if_true] at hx
+    cases hs : s x with
+    | none => rw [hs] at hx; simp only [Option.some.injEq] at hx; rw [← hx]; exact hh
+    | some c1 => rw [hs] at hx; simp only [Option.some.injEq] at hx; rw [← hx]; exact hS _ _ hs
+  · simp only [hxh, if_false] at hx
+    exact hS _ _ hx
+
+theorem put_get {hashOf : CNode → Hash} (hinj : ∀ a b, hashOf a = hashOf b → a = b) {s : Store}
+    (hS : Sound hashOf s) {h : Hash} {c : CNode} (hh : h = hashOf c) : (s.put h c) h = some c := by
+  unfold Store.put
+  simp only [if_true]
+  cases hs : s h with
+  | none => rfl
+  | some c1 =>
+    have := hS _ _ hs
+    rw [hh] at this
+    rw [hinj _ _ this]
+
+theorem putAll_spec {hashOf : CNode → Hash} (hinj : ∀ a b, hashOf a = hashOf b → a = b) :
+    ∀ (ws : List (Hash × CNode)) (s : Store), Sound hashOf s → (∀ w, w ∈ ws → w.1 = hashOf w.2) →
+    Store.le s (s.putAll ws) ∧ Sound hashOf (s.putAll ws) ∧ ∀ w, w ∈ ws → (s.putAll ws) w.1 = some w.2 := by
+  intro ws
+  induction ws with
+  | nil => intro s hS _; exact ⟨Store.le_refl s, hS, fun w hw => by cases hw⟩
+  | cons w ws ih =>
+    intro s hS hw
+    have h1 := hw w List.mem_cons_self
+    obtain ⟨g1, g2, g3⟩ := ih (s.put w.1 w.2) (put_sound hS h1) (fun x hx => hw x (List.mem_cons_of_mem _ hx))
+    refine ⟨Store.le_trans (put_le s w.1 w.2) g1, g2, fun x hx => ?_⟩
+    rcases List.mem_cons.mp hx with hx | hx
+    · subst hx
+      exact g1 _ _ (put_get hinj hS h1)
+    · exact g3 x hx
+
+/-! ### `Mpt.get` never panics on a canonical trie with a terminated key -/
+
+theorem get_no_panic (n : Node) : ∀ (k : List Nib), Canon n → TermKey k → Mpt.get n k ≠ .panic := by
+  induction n with
+  | empty => intro k _ _; simp [Mpt.get]
+  | value v => intro k _ _; simp [Mpt.get]
+  | short K c ih =>
+    intro k hC hk
+    rw [get_short]
+    cases hsp : stripPrefix K k with
+    | none => rw [onStrip_none hsp]; simp
+    | some rest =>
+      rw [onStrip_some hsp]
+      rcases canon_short_inv hC with ⟨v, hc, _, _⟩ | ⟨ch, hc, _, hK, hCf⟩
+      · subst hc; simp [Mpt.get]
+      · subst hc
+        have e := stripPrefix_some hsp
+        subst e
+        exact ih rest hCf (term_suffix hK hk)
+  | full ch ih =>
+    intro k hC hk
+    obtain ⟨h1, h2, _⟩ := canon_full_inv hC
+    cases k with
+    | nil => exact absurd rfl (term_ne_nil hk)
+    | cons x r =>
+      rw [get_full_cons]
+      by_cases hx : x = 16
+      · subst hx
+        rcases h2 with h | ⟨v, _, h⟩ <;> rw [h] <;> simp [Mpt.get]
+      · exact ih x r (h1 x hx) (term_tail hk hx)
+
+/-! ### `Trie.Commit`, `Trie.Hash`, `trie.New` -/
+
+/-- the hasher parameters alone (cache generation and limit do not enter the invariant) -/
+def baseH (small : CNode → Bool) (hashOf : CNode → Hash) : Hasher := ⟨small, hashOf, 0, 0, false⟩
+
+/-- the root hash the hasher assigns to the resolved trie `n` (`emptyRoot` for the empty trie) -/
+def refRoot (hs : Hasher) (n : Node) : Hash :=
+  match refC hs n true with
+  | .hash h => h
+  | _ => hs.hashOf .empty
+
+section trie
+variable (small : CNode → Bool) (hashOf : CNode → Hash)
+
+theorem canon_branch_or_empty {n : Node} (hC : Canon n) : n = .empty ∨ Node.isBranch n = true := by
+  cases hC with
+  | empty => exact Or.inl rfl
+  | leaf => exact Or.inr rfl
+  | ext => exact Or.inr rfl
+  | full => exact Or.inr rfl
+
+theorem commit_inv (hinj : ∀ a b, hashOf a = hashOf b → a = b) {s : Store} (hS : Sound hashOf s)
+    {t : Trie} {n : Node} (hI : Inv (baseH small hashOf) s true t.root n) (hC : Canon n) :
+    ∃ t' ws, t.commit small hashOf = .ok (refRoot (baseH small hashOf) n, t', ws) ∧
+      Store.le s (s.putAll ws) ∧ Sound hashOf (s.putAll ws) ∧
+      Inv (baseH small hashOf) (s.putAll ws) true t'.root n ∧ t'.cachelimit = t.cachelimit ∧
+      Stored (baseH small hashOf) (s.putAll ws) true n ∧ Closed (baseH small hashOf) (s.putAll ws) n := by
+  obtain ⟨hP, _, hnv⟩ := canon_placed_nes n hC
+  rcases canon_branch_or_empty hC with hn | hb
+  · subst hn
+    have hr := inv_empty_right _ hI
+    refine ⟨{ t with cachegen := (t.cachegen + 1) % 65536 }, [], ?_, Store.le_refl s, hS, ?_, rfl, ?_, trivial⟩
+    · simp only [Trie.commit, hr]; rfl
+    · simpa [hr] using Inv.empty true
+    · intro h hh; simp [refC] at hh
+  · let hx := t.hasher small hashOf true
+    have hw := writes_sound (baseH small hashOf) hx rfl rfl hI hP hnv
+    obtain ⟨g1, g2, g3⟩ := putAll_spec hinj (writes hx t.root true) s hS hw
+    obtain ⟨c1, c2, c3⟩ := commit_core (baseH small hashOf) hx rfl rfl hI hP hnv (s.putAll (writes hx t.root true))
+      g1 (fun _ => g3)
+    have hH := hashed_eq_ref (baseH small hashOf) hx rfl rfl hI hP
+    obtain ⟨h, hh⟩ := refC_force_hash (baseH small hashOf) n hb
+    have hroot : refRoot (baseH small hashOf) n = h := by simp [refRoot, hh]
+    have hne : t.root ≠ .empty := by
+      intro he
+      rw [he] at hI
+      cases hI
+      simp [Node.isBranch] at hb
+    refine ⟨{ t with root := cachedOf hx t.root true, cachegen := (t.cachegen + 1) % 65536 },
+      writes hx t.root true, ?_, g1, g2, c2, rfl, (c3 rfl).1, (c3 rfl).2⟩
+    have hH' : hashed (t.hasher small hashOf true) t.root true = .hash h := by rw [← hh]; exact hH
+    have c1' : hashBad (t.hasher small hashOf true) t.root = false := c1
+    unfold Trie.commit
+    cases hr : t.root with
+    | empty => exact absurd hr hne
+    | value v => rw [hr] at hH' c1'; simp only [c1', hH', hroot]; rfl
+    | hash h0 => rw [hr] at hH' c1'; simp only [c1', hH', hroot]; rfl
+    | short K c f => rw [hr] at hH' c1'; simp only [c1', hH', hroot]; rfl
+    | full ch f => rw [hr] at hH' c1'; simp only [c1', hH', hroot]; rfl
+
+theorem hash_inv {s : Store} {t : Trie} {n : Node} (hI : Inv (baseH small hashOf) s true t.root n)
+    (hC : Canon n) :
+    ∃ t', t.hash small hashOf = .ok (refRoot (baseH small hashOf) n, t') ∧
+      Inv (baseH small hashOf) s true t'.root n ∧ t'.cachelimit = t.cachelimit := by
+  obtain ⟨hP, _, hnv⟩ := canon_placed_nes n hC
+  rcases canon_branch_or_empty hC with hn | hb
+  · subst hn
+    have hr := inv_empty_right _ hI
+    refine ⟨t, ?_, hI, rfl⟩
+    simp only [Trie.hash, hr]; rfl
+  · let hx := t.hasher small hashOf false
+    obtain ⟨c1, c2, _⟩ := commit_core (baseH small hashOf) hx rfl rfl hI hP hnv s (Store.le_refl s)
+      (fun h => by cases h)
+    have hH := hashed_eq_ref (baseH small hashOf) hx rfl rfl hI hP
+    obtain ⟨h, hh⟩ := refC_force_hash (baseH small hashOf) n hb
+    have hroot : refRoot (baseH small hashOf) n = h := by simp [refRoot, hh]
+    have hne : t.root ≠ .empty := by
+      intro he
+      rw [he] at hI
+      cases hI
+      simp [Node.isBranch] at hb
+    refine ⟨{ t with root := cachedOf hx t.root true }, ?_, c2, rfl⟩
+    have hH' : hashed (t.hasher small hashOf false) t.root true = .hash h := by rw [← hh]; exact hH
+    have c1' : hashBad (t.hasher small hashOf false) t.root = false := c1
+    unfold Trie.hash
+    cases hr : t.root with
+    | empty => exact absurd hr hne
+    | value v => rw [hr] at hH' c1'; simp only [c1', hH', hroot]; rfl
+    | hash h0 => rw [hr] at hH' c1'; simp only [c1', hH', hroot]; rfl
+    | short K c f => rw [hr] at hH' c1'; simp only [c1', hH', hroot]; rfl
+    | full ch f => rw [hr] at hH' c1'; simp only [c1', hH', hroot]; rfl
+
+/-- `trie.New(root, db)` on a store that is closed for the trie: the re-opened trie abstracts to it.
+    Hypotheses on `hashOf`: injective (the root hash of a non-empty trie is not `emptyRoot`) and no node
+    hashes to the zero hash (`New` treats `common.Hash{}` as the empty trie). -/
+theorem open_inv (hinj : ∀ a b, hashOf a = hashOf b → a = b) (hz : ∀ c, hashOf c ≠ zeroHash)
+    {s : Store} {n : Node} (hC : Canon n)
+    (hSt : Stored (baseH small hashOf) s true n) (hCl : Closed (baseH small hashOf) s n) :
+    ∃ t', Trie.new hashOf s (refRoot (baseH small hashOf) n) = .ok t' ∧
+      Inv (baseH small hashOf) s true t'.root n ∧ t'.cachegen = 0 := by
+  obtain ⟨hP, _, _⟩ := canon_placed_nes n hC
+  rcases canon_branch_or_empty hC with hn | hb
+  · subst hn
+    refine ⟨{}, ?_, .empty true, rfl⟩
+    have : refRoot (baseH small hashOf) .empty = hashOf .empty := rfl
+    simp [Trie.new, this]
+  · obtain ⟨h, hh⟩ := refC_force_hash (baseH small hashOf) n hb
+    have hroot : refRoot (baseH small hashOf) n = h := by simp [refRoot, hh]
+    have hhk := (refC_hash_inv (hs := baseH small hashOf) hb hh).2
+    have hI : Inv (baseH small hashOf) s true (.hash h) n := .hash true h n hb hh (hSt h hh) hCl
+    obtain ⟨rn, hres, hIr, _⟩ := inv_resolve (baseH small hashOf) 0 hI hP
+    have h1 : h ≠ zeroHash := by rw [hhk]; exact hz _
+    have h2 : h ≠ hashOf .empty := by
+      rw [hhk]
+      intro e
+      have := hinj _ _ e
+      have hb' := refKids_isBranch (baseH small hashOf) n hb
+      rw [this] at hb'
+      simp [CNode.isBranch] at hb'
+    refine ⟨{ root := rn }, ?_, hIr, rfl⟩
+    rw [hroot]
+    simp only [Trie.new, h1, h2, or_self, if_false, hres]
+
+
+end trie
 
 end LemoProofs.MptStoreLemmas
